@@ -191,5 +191,26 @@ def random_structure(rng, kind=None, max_branches=10, max_cells=4, nmax=5, nonto
     return {"kind": kind, "cells": cells, "pattern": "+".join(pats), "labelling": lab}
 
 
+def point_network(rng, mixed=False):
+    """Networks of unbranched cells: point neurons (one compartment) and single-branch cells of equal or different
+    size; `mixed` puts a branched cell first and point neurons last."""
+    ncell = int(rng.integers(2, 6))
+    mode = str(rng.choice(["points", "single_branch_equal", "single_branch_unequal"]))
+    cells = []
+    nb = int(rng.integers(2, 5))
+    for i in range(ncell):
+        if mode == "points":
+            cells.append({"parents": [-1], "ncomp": [1]})
+        elif mode == "single_branch_equal":
+            cells.append({"parents": [-1], "ncomp": [nb]})
+        else:
+            cells.append({"parents": [-1], "ncomp": [int(rng.integers(1, 5))]})
+    if mixed:
+        par = random_parents(rng, int(rng.integers(2, 5)))
+        cells[0] = {"parents": [int(p) for p in par], "ncomp": [int(rng.integers(1, 4)) for _ in par]}
+        cells[-1] = {"parents": [-1], "ncomp": [1]}
+    return {"kind": "network", "cells": cells, "pattern": mode + ("+mixed" if mixed else ""), "labelling": "topo"}
+
+
 def total_comps(struct):
     return int(sum(sum(c["ncomp"]) for c in struct["cells"]))
